@@ -108,6 +108,8 @@ def check(F, rep, tier):
     wildcard(F, rep)
     remainder_only(F, rep)
     first_match(F, rep)
+    rules_as_written(F, rep)
+    dev_iff_dirty_or_ahead(F, rep)
     flags_beat_rules(F, rep)
     hash_len(F, rep)
     hash_purity(F, rep)
@@ -249,6 +251,98 @@ def first_match(F, rep):
     clo = F.children(f.path)
     if any((mir.callee(t) or "").endswith("BranchRule::matches") for c in clo for bi, t in c.calls()): rep.ok(rule, "the predicate is BranchRule::matches")
     else: rep.bad(rule, "find-predicate", "find_rule's predicate is not BranchRule::matches", f.where())
+
+def override_dirty_full_table(F, f):
+    """complete decision table of FlowArgs::override_dirty by abstract evaluation (rules/absint.py):
+    {(tag_mode, flag_dirty, flag_no_dirty, current_dirty in (None, False, True), distance in (None, 'zero', 'pos')): bool}, or (None, why)"""
+    import absint as A
+    doms = {2: [A.NONE, A.some(False), A.some(True)], 3: [A.NONE, A.some(A.ZERO), A.some(A.POS)]}
+    try:
+        atoms, tab = A.decision_table(F, f, doms)
+    except A.Unknown as e:
+        return None, "not modelled: %s" % e
+    role = {}
+    for a in atoms:
+        if "no_dirty" in a: r = "fnd"
+        elif "dirty" in a and "post_mode" not in a: r = "fd"
+        elif "post_mode" in a and "'tag'" in a and a.startswith("eq("): r = "tag"
+        else: return None, "a condition the table cannot name: %s" % a
+        if r in role.values(): return None, "two conditions for %s" % r
+        role[a] = r
+    out = {}
+    for (combo, asg), v in tab.items():
+        if not isinstance(v, bool) and v != "diverges": return None, "non-boolean result %r" % (v,)
+        named = {role[a]: b for a, b in asg}
+        cd = None if combo[0][0] == "None" else combo[0][1]
+        ds = None if combo[1][0] == "None" else combo[1][1][1]
+        out[(named.get("tag"), named.get("fd"), named.get("fnd"), cd, ds)] = v
+    return out, sorted(role.values())
+
+def dev_iff_dirty_or_ahead(F, rep):
+    """R04.7: without an explicit --dirty / --no-dirty the dirty flag handed to the version pipeline is, in tag mode, `dirty or ahead`
+    (whatever is known about each), and an explicit flag wins.  Decided on the function's full decision table."""
+    rule = "R04.7"
+    od = [x for x in F.find("FlowArgs>::override_dirty") if x.kind == "assoc"]
+    if not rep.anchor(rule, "FlowArgs::override_dirty", od): return
+    rep.fn_seen(od[0])
+    tab, info = override_dirty_full_table(F, od[0])
+    if tab is None:
+        rep.undecided(rule, "override-dirty-table", "cannot build the decision table of override_dirty (%s)" % info, od[0].where()); return
+    wrong = []
+    for (tag, fd, fnd, cd, ds), v in sorted(tab.items(), key=repr):
+        if fd and fnd: continue                                   # rejected by argument validation
+        if tag is None and not (fd or fnd): continue              # the function never looks at the mode on this row's path
+        want = fd if (fd or fnd) else bool(tag and (cd is True or ds == "pos"))
+        if v != want: wrong.append("post-mode %s, --dirty %s, --no-dirty %s, work tree dirty %s, distance %s -> %s (expected %s)" % ("tag" if tag else "commit", fd, fnd, {None: "unknown", True: "yes", False: "no"}[cd], {None: "unknown", "zero": "0", "pos": ">0"}[ds], v, want))
+    if wrong:
+        rep.bad(rule, "dirty-or-ahead", "override_dirty deviates from `explicit flag, else tag mode and (dirty or ahead)` on %d of %d rows, e.g. %s" % (len(wrong), len(tab), wrong[0]), od[0].where())
+    else:
+        rep.ok(rule, "override_dirty == explicit flag, else (tag mode and (dirty or distance > 0)) on all %d rows of its decision table (conditions %s)" % (len(tab), info), nontrivial_key="odt")
+
+def rules_as_written(F, rep):
+    """`first matching rule` is about the list the user wrote: the constructors keep it in order and whole, and a branch no
+    rule matches gets the fixed fallback (no rule's number extraction runs for it)."""
+    rule = "R04.3"
+    REORDER = ("::sort", "::sort_by", "::sort_by_key", "::sort_unstable", "::sort_unstable_by", "::sort_unstable_by_key", "::dedup", "::dedup_by", "::dedup_by_key",
+               "::reverse", "::retain", "::swap", "::swap_remove", "::truncate", "::rev", "IndexMap<K, V, S>::insert", "HashMap<K, V, S>::insert", "BTreeMap<K, V, A>::insert",
+               "::insert_full", "::into_values", "::into_keys", "::rotate_left", "::rotate_right", "::pop", "::remove", "::drain")
+    n = 0
+    for nm, f in (("BranchRules::new", F.fn("crate::cli::flow::branch_rules::BranchRules::new")),
+                  ("<BranchRules as FromStr>::from_str", F.fn("<crate::cli::flow::branch_rules::BranchRules as std::str::FromStr>::from_str"))):
+        if not rep.anchor(rule, nm, f): continue
+        rep.fn_seen(f)
+        fi = mir.inlined(F, f, depth=3, keep=("validate", "preprocess_ron_syntax"))
+        n += 1
+        hits = sorted({(mir.callee(t) or "").rsplit("::", 1)[-1] for h in [fi] + mir.closures_in(F, fi) for bi, t in h.calls() if any((mir.callee(t) or "").endswith(x) for x in REORDER)})
+        if hits: rep.bad(rule, "rule-list-rebuilt:" + nm.rsplit("::", 1)[-1], "%s passes the parsed rule list through %s: rules are dropped, merged or reordered, so the rule that applies is no longer the first matching one the user wrote" % (nm, hits), fi.where())
+        else: rep.ok(rule, "%s stores the rule list as parsed (no reordering / de-duplication call)" % nm, nontrivial_key="aswritten" + nm)
+    rb = F.fn("crate::cli::flow::branch_rules::BranchRules::resolve_for_branch")
+    if rep.anchor(rule, "BranchRules::resolve_for_branch", rb):
+        rep.fn_seen(rb)
+        ri = mir.inlined(F, rb, depth=2, keep=("find_rule", "resolve_for_branch", "resolve_pre_release_num", "extract_branch_number"))
+        nres = 0
+        for h in [ri] + mir.closures_in(F, ri):
+            for bi, t in h.calls():
+                if not (mir.callee(t) or "").endswith("BranchRule::resolve_for_branch") or not t[2]: continue
+                nres += 1
+                site = "%s bb%d line %s" % (h.where(), bi, h.blocks[bi]["line"])
+                kinds = set()
+                for k, d in mir.deep_origins(h, t[2][0], stop=()):
+                    if k == "call" and d.isdigit() and h.blocks[int(d)]["t"][0] == "call":
+                        c2 = mir.callee(h.blocks[int(d)]["t"]) or ""
+                        if c2.endswith("::find_rule"): kinds.add("found")
+                        elif c2.startswith("crate::") and not c2.endswith("::find_rule"): kinds.add("made:" + c2.rsplit("::", 1)[-1])
+                    elif k == "agg":
+                        kinds.add("made:literal") if False else None
+                    elif k in ("param", "upvar"): kinds.add("given")
+                for o in mir.trace_op(h, t[2][0]):
+                    if o.kind == "agg" and (mir.rv_at(o.fn, *o.data)[1].get("adt") or "").endswith("BranchRule"): kinds.add("made:literal")
+                made = sorted(x for x in kinds if x.startswith("made:"))
+                if made: rep.bad(rule, "fallback-runs-a-rule", "resolve_for_branch resolves a rule that is not the one find_rule returned (%s): a branch that no configured rule matches gets a number extracted from its name instead of the fixed fallback (hash)" % made, site)
+                elif kinds: rep.ok(rule, "only the rule found by find_rule (or handed in) is resolved", sample=site, nontrivial_key="res%s%d" % (h.path, bi))
+                else: rep.undecided(rule, "resolve-receiver-origin", "cannot tell where the resolved rule comes from", site)
+        rep.floor(rule, "rule resolutions in BranchRules::resolve_for_branch", nres, 1)
+    rep.floor(rule, "rule-list constructors", n, 2)
 
 def flags_beat_rules(F, rep):
     rule = "R04.4"
